@@ -77,11 +77,71 @@ theorem refill_size (l : Lfu) (n : Nat) (extras : List (Nat × Int))
   rw [this]
   omega
 
-/-- the first minimum is the entry the Rust scan (`if hits < min_hits`) selects -/
-theorem victim_is_first_minimum (est : Nat → Int) (s : List (Nat × Int)) (i : Nat)
+/-- whichever of the equally unpopular candidates the tie-break oracle proposes (`tiePick`: the first one, as
+the Rust scan `if hits < min_hits` finds it, the last one, any other), the entry taken is in the sample and
+carries the minimum estimate of the whole sample; a proposal that is not a minimum is never taken. With the
+oracle's default answer the first minimum is taken (`first_minimum_by_default`). -/
+theorem victim_is_a_minimum (est : Nat → Int) (s : List (Nat × Int)) (i : Nat)
     (q : Nat × Int) (h : Int) (hm : minEntry est s = some (i, q, h)) :
     s[i]? = some q ∧ h = est q.1 ∧ ∀ p ∈ s, h ≤ est p.1 :=
   minEntry_spec est s i q h hm
+
+/-- the oracle's default answer (index 0) reproduces the scan of the code as it stands: the first minimum -/
+theorem first_minimum_by_default (est : Nat → Int) (s : List (Nat × Int))
+    (h0 : tiePick est s = 0) : minEntry est s = minEntryFirst est s := by
+  unfold minEntry
+  cases hf : minEntryFirst est s with
+  | none => rfl
+  | some r =>
+    obtain ⟨i, q, h⟩ := r
+    simp only [h0]
+    cases hs : s[0]? with
+    | none => rfl
+    | some q' =>
+      simp only
+      split
+      · rename_i heq
+        -- the head is a minimum, so the first-minimum scan returns it
+        cases s with
+        | nil => simp at hs
+        | cons p rest =>
+          simp only [List.getElem?_cons_zero, Option.some.injEq] at hs
+          subst hs
+          simp only [minEntryFirst] at hf
+          cases hr : minEntryFirst est rest with
+          | none => simp only [hr, Option.some.injEq, Prod.mk.injEq] at hf; obtain ⟨rfl, rfl, rfl⟩ := hf; rfl
+          | some r' =>
+            obtain ⟨i', q'', h'⟩ := r'
+            simp only [hr] at hf
+            split at hf
+            · simp only [Option.some.injEq, Prod.mk.injEq] at hf; obtain ⟨rfl, rfl, rfl⟩ := hf; rfl
+            · rename_i hnle
+              simp only [Option.some.injEq, Prod.mk.injEq] at hf; obtain ⟨rfl, rfl, rfl⟩ := hf
+              exact absurd (by rw [heq]; exact Int.le_refl _) hnle
+      · rfl
+
+/-- **the tie-break is free**: every entry of the sample that carries the minimum estimate can be the one
+taken — there is an answer of the oracle for which `minEntry` returns exactly that entry (the rule C07 states
+does not single one out) -/
+theorem tie_break_is_free (est : Nat → Int) (s : List (Nat × Int)) (j : Nat) (q : Nat × Int)
+    (hj : s[j]? = some q) (hmin : ∀ p ∈ s, est q.1 ≤ est p.1) (hpick : tiePick est s = j) :
+    minEntry est s = some (j, q, est q.1) := by
+  unfold minEntry
+  cases hf : minEntryFirst est s with
+  | none =>
+    have : s = [] := (minEntryFirst_none est s).mp hf
+    subst this; simp at hj
+  | some r =>
+    obtain ⟨i0, q0, h0⟩ := r
+    obtain ⟨h1, h2, h3⟩ := minEntryFirst_spec est s i0 q0 h0 hf
+    have hq0 : q0 ∈ s := List.mem_of_getElem? h1
+    have hq : q ∈ s := List.mem_of_getElem? hj
+    have heq : est q.1 = h0 := by
+      have a := hmin q0 hq0
+      have b := h3 q hq
+      rw [h2] at b ⊢
+      omega
+    simp only [hpick, hj, heq, if_true]
 
 /-- **loop_terminates**: "evicted one at a time only while room is still lacking" is a loop without an
 explicit bound in the code. Offered `#charged · samples + 1` iterations whose refills are what
@@ -114,5 +174,7 @@ end Stretto.C07
 #print axioms Stretto.C07.reject_iff
 #print axioms Stretto.C07.victims_released
 #print axioms Stretto.C07.refill_size
-#print axioms Stretto.C07.victim_is_first_minimum
+#print axioms Stretto.C07.victim_is_a_minimum
+#print axioms Stretto.C07.first_minimum_by_default
+#print axioms Stretto.C07.tie_break_is_free
 #print axioms Stretto.C07.loop_terminates
